@@ -44,6 +44,7 @@ def run(F, rep):
             n += 1
             rep.ob("C16-NAME", o["instance"], o["ok"], detail=o["detail"], site=o["site"], how=o["how"], key=o["key"].replace(o["rule"], "C16-NAME"))
     rep.floor("C16-NAME", n, 7, "contig-name codec clauses shared with C03")
+    c09.empty_rules(F, rep, "C16")     # a segment that is a prefix of its reference must not be stored as "same as the reference"
     # (LINE) no sequence line is dropped by the record reader (shared with C19-G3)
     from rules import c19
     sub = type(rep)(rep.pid, rep.tier)
